@@ -19,6 +19,28 @@ from project import project, TAG, ETAG
 _tagctr = itertools.count(1)
 
 
+class CallTimeout(BaseException):
+    pass
+
+
+def guarded(fn, seconds=120):
+    """run a library call; in the main thread a call that does not return within `seconds` is interrupted
+    (a loop that never ends must not hang the check)"""
+    import signal, threading
+    if threading.current_thread() is not threading.main_thread():
+        return fn()
+
+    def onalarm(signum, frame):
+        raise CallTimeout()
+    old = signal.signal(signal.SIGALRM, onalarm)
+    signal.setitimer(signal.ITIMER_REAL, seconds)
+    try:
+        return fn()
+    finally:
+        signal.setitimer(signal.ITIMER_REAL, 0)
+        signal.signal(signal.SIGALRM, old)
+
+
 def tag_graph(g):
     """attach unique tags in place (driver-owned objects only)"""
     for a in g.nodes:
@@ -98,15 +120,21 @@ class Session:
     def canon(self, k, spy=True):
         g = self.objs[k]
         before = project(g)
+        if "bad" in before:          # an earlier call damaged the object (already reported): nothing more can be said about it
+            return None
         with PartitionSpy() as ps:
             try:
-                res = tc.canonicalize_molecule(g)
+                res = guarded(lambda: tc.canonicalize_molecule(g), 900)
             except BaseException as ex:  # noqa
                 self.ev.append({"op": "raised", "call": "canonicalize_molecule", "arg": k,
                                 "clause": "C15:canonicalize_molecule-raised-" + type(ex).__name__, "n": before.get("n", 0)})
                 return None
         after = project(g)
         pr = project(res)
+        if "bad" in after:
+            self.ev.append({"op": "raised", "call": "canonicalize_molecule", "arg": k,
+                            "clause": "C12:canonicalize-mutated-its-argument(atoms-renamed-or-removed)"})
+            return None
         if "bad" in pr:
             self.ev.append({"op": "raised", "call": "canonicalize_molecule", "arg": k,
                             "clause": "C12:result-not-numbered-0..n-1"})
@@ -122,13 +150,19 @@ class Session:
     def ser(self, k, wit=None, nowit=False):
         g = self.objs[k]
         before = project(g)
+        if "bad" in before:
+            return None
         try:
-            s = tser.serialize_molecule(g)
+            s = guarded(lambda: tser.serialize_molecule(g), 900)
         except BaseException as ex:  # noqa
             self.ev.append({"op": "raised", "call": "serialize_molecule", "arg": k,
                             "clause": "C15:serialize_molecule-raised-" + type(ex).__name__, "n": before.get("n", 0)})
             return None
         after = project(g, keep_scratch=False)
+        if "bad" in after:
+            self.ev.append({"op": "raised", "call": "serialize_molecule", "arg": k,
+                            "clause": "C12:serialize-changed-atom-set-or-order(atoms-renamed-or-removed)"})
+            return s
         e = {"op": "ser", "arg": k, "ret": s, "before": before, "after": after}
         if wit is None and not nowit:
             wit, decided = propose_witness(self.prov_graph(k), s)
@@ -175,10 +209,11 @@ class Session:
         g = self.objs[k]
         before = project(g)
         try:
-            res = tgu.permute_molecule(g, random_seed=seed)
+            res = guarded(lambda: tgu.permute_molecule(g, random_seed=seed), 20)
         except BaseException as ex:  # noqa
             self.ev.append({"op": "raised", "call": "permute_molecule", "arg": k,
-                            "clause": "C16:permute_molecule-raised-" + type(ex).__name__})
+                            "clause": ("C16:permute_molecule-did-not-return" if isinstance(ex, CallTimeout)
+                                       else "C16:permute_molecule-raised-" + type(ex).__name__)})
             return None
         after = project(g)
         pr = project(res)
@@ -238,11 +273,13 @@ class Session:
         ra, rb = self.read_ids.get(a, a), self.read_ids.get(b, b)
         self.ev.append({"op": "sametext", "a": ra, "b": rb, "perm": list(perm), "pfx": pfx, "strict": strict, "samegraph": samegraph})
 
-    def write(self, k):
+    def write(self, k, live=None, relabel=None):
+        """live: the graph actually handed to the writer when it is object k under another (wide / sparse) numbering
+        `relabel` (label of k -> label of live); the log states everything in k's labels"""
         from tucan.io import graph_to_molfile
         g = self.objs[k]
         try:
-            text = graph_to_molfile(g)
+            text = graph_to_molfile(live if live is not None else g)
         except BaseException as ex:  # noqa
             self.ev.append({"op": "raised", "call": "graph_to_molfile", "arg": k, "clause": "C09:graph_to_molfile-raised-" + type(ex).__name__})
             return None
